@@ -1683,13 +1683,13 @@ def run_corpus(ctx: Ctx):
     try:
         run_trie(ctx, "sop", core_configs(), 4)
         run_trie(ctx, "rtb", core_configs()[::3], 3)
-        run_num_rtb(ctx, 260, 40)
-        run_num_rtb(ctx, 4, 420, long=True)
-        run_num_sop(ctx, 220, 40)
+        run_num_rtb(ctx, 200, 40)
+        run_num_rtb(ctx, 3, 420, long=True)
+        run_num_sop(ctx, 150, 40)
         run_interleave(ctx, 40)
-        run_drv_optimize(ctx, 200)
-        run_drv_mpc(ctx, 120, 3)
-        run_drv_icp(ctx, 50)
+        run_drv_optimize(ctx, 150)
+        run_drv_mpc(ctx, 80, 2)
+        run_drv_icp(ctx, 35)
     finally:
         ctx.rng = saved
 
@@ -1721,9 +1721,9 @@ def run(ctx: Ctx):
     run_graph(ctx, "rtb", core + extra, depth)
     if q:
         run_trie(ctx, "sop", core, 5)
-        run_trie(ctx, "sop", rng.sample(core, 3), 6)
+        run_trie(ctx, "sop", rng.sample(core, 2), 6)
         run_trie(ctx, "rtb", core, 4)
-        run_trie(ctx, "rtb", rng.sample(core, 3), 5)
+        run_trie(ctx, "rtb", rng.sample(core, 2), 5)
     else:
         sh = list(core)
         rng.shuffle(sh)
@@ -1732,14 +1732,14 @@ def run(ctx: Ctx):
         run_trie(ctx, "sop", rng.sample(core, 1), 8)
         run_trie(ctx, "rtb", core, 5)
         run_trie(ctx, "rtb", sh[:8], 6)
-    run_num_rtb(ctx, ctx.pick(700, 2500), 40 if q else 150)
+    run_num_rtb(ctx, ctx.pick(500, 2500), 40 if q else 150)
     run_num_rtb(ctx, ctx.pick(3, 12), 420 if q else 1500, long=True)
-    run_num_sop(ctx, ctx.pick(700, 2500), 40 if q else 150)
+    run_num_sop(ctx, ctx.pick(500, 2500), 40 if q else 150)
     run_interleave(ctx, ctx.pick(60, 400))
     run_drv_optimize(ctx, ctx.pick(400, 4000))
-    run_drv_optimize_real(ctx, ctx.pick(30, 200))
+    run_drv_optimize_real(ctx, ctx.pick(16, 200))
     run_drv_mpc(ctx, ctx.pick(200, 2000), ctx.pick(12, 100))
-    run_drv_icp(ctx, ctx.pick(70, 500))
+    run_drv_icp(ctx, ctx.pick(50, 500))
 
 
 def search(ctx: Ctx):
